@@ -30,6 +30,19 @@ def spl_contract_cases(seed, count, max_side, tag):
                 if rng.random() < 0.3:
                     sp["A"] = [str(rng.randint(1, 50)) for _ in range(n)]
                 steps.append(sp)
+            # one eroder object serves several steps while the graph changes under it (mask, base
+            # levels, other fields): nodes become terminal / masked / lakes between two calls
+            nn = rng.choice(["1", "1", "2", "0.5"])
+            if any(o["k"] == "multi" for o in ops):
+                nn = "1"
+            base = dict(op="spl", g=k, eid=7, m=rng.choice(["0.4", "0.5", "1"]), n=nn, tol="1e-6",
+                        dt=rng.choice(["1", "10", "1e3"]), Ks=rng.choice(["1", "1e-2", "5"]), elev="out")
+            steps.append(dict(base))
+            for _ in range(3):
+                mask2, bl2 = gen.rand_mask_bl(rng, g, p_mask=0.25, p_bl=0.25)
+                z2 = gen.rand_field(rng, g, rng.choice(["tied", "bowl", "distinct"]))
+                steps += [dict(op="mask", g=k, m=mask2), dict(op="bl", g=k, bl=bl2),
+                          dict(op="update", g=k, z=rng.choice([z, z2])), dict(base)]
             steps.append(dict(op="drop", g=k))
         yield flow_case("%s-%d-%d" % (tag, seed, i), g, steps)
 
